@@ -573,7 +573,10 @@ func (r *spaceRunner) violationFamily() {
 				if !w.Mine(i) {
 					continue
 				}
-				r.projectCase("violations", &project{Root: root, Types: map[string]string{"@a": a, "@z": b, "@ok": `"s"`, "@ok2": "{\n\t\"o2\": 1\n}"}})
+				types := map[string]string{"@a": a, "@z": b, "@ok": `"s"`, "@ok2": "{\n\t\"o2\": 1\n}"}
+				r.projectCase("violations", &project{Root: root, Types: types})
+				// the same project with every type body filed under one name
+				r.projectCase("violations", &project{Root: root, Types: types, TypeFile: "types.jst"})
 				w.S.Nontrivial++
 			}
 		}
